@@ -26,6 +26,12 @@ func main() {
 		fmt.Println("BUILD-FAILED property=C07 frugal failed on fixtures/c07scopes.frugal:", r.Stdout, r.Stderr)
 		os.Exit(2)
 	}
+	// scopes whose topics begin with the transports' own word ("frugal."), and the
+	// same scopes without it (c07nestb includes c07nesta; -r emits both)
+	if r := h.Gen("", filepath.Join(ev.Root(), "harness/c07/idl"), "c07nestb.frugal", ""); r.ExitCode != 0 {
+		fmt.Println("BUILD-FAILED property=C07 frugal failed on harness/c07/idl/c07nestb.frugal:", r.Stdout, r.Stderr)
+		os.Exit(2)
+	}
 	if err := h.CopySources(filepath.Join(ev.Root(), "harness/c07"), "c07"); err != nil {
 		fmt.Println(err)
 		os.Exit(2)
